@@ -114,6 +114,9 @@ def expandUse (root : Node) (byId : List (String × Node)) (useEl : Node) : DocM
   let group := Node.elem gu (Node.svgTag "g") gattrs [newEl]
   -- `_try_remove_group(group, push_opacity=False)`: one child ⇒ always removable;
   -- `_opacity(group)` is evaluated regardless (ValueError on a non-numeric opacity)
+  -- a clip-path on the use stays on a group when the target has its own transform or clip-path
+  let keepGroup := gattrs.has "clip-path" && (newEl.attrs.has "transform" || newEl.attrs.has "clip-path")
+  if keepGroup then return group
   let removable ← liftE (Groups.isRemovable group)
   let _ ← liftE (Groups.opacity group)
   if removable then
